@@ -66,6 +66,13 @@ type FuncSpec struct {
 	Assumes   []*Clause   // trusted post-conditions: assumed at call sites, not checked against the body
 	AssumePre []*Clause   // modelling assumptions available inside the body only (not checked at call sites)
 	Pure      *Clause     // pure E: the function returns E (a function of parameters and captured variables)
+	EntryGhosts []*GhostAssign // ghost NAME = expr : ghost updates performed on entry of the body
+}
+
+type GhostAssign struct {
+	Name string
+	E    Expr
+	Text string
 }
 
 type LetSpec struct {
@@ -333,6 +340,16 @@ func (fs *FuncSpec) addClause(t, file string, ln int) error {
 		fs.UnreachableOK = n
 	case "releases":
 		fs.Releases = append(fs.Releases, strings.Fields(rest)...)
+	case "ghost":
+		i := strings.Index(rest, "=")
+		if i < 0 {
+			return fmt.Errorf("ghost NAME = expr")
+		}
+		e, err := parseSpecExpr(strings.TrimSpace(rest[i+1:]))
+		if err != nil {
+			return err
+		}
+		fs.EntryGhosts = append(fs.EntryGhosts, &GhostAssign{Name: strings.TrimSpace(rest[:i]), E: e, Text: rest})
 	case "let":
 		i := strings.Index(rest, "=")
 		if i < 0 {
